@@ -21,13 +21,14 @@ pcregcache == <<pc, reg, cache, ok>>   \* the history is observation only: hidde
 (* "/auto/2": no serial number given, the issuer's own key as subject key under another subject name;                   *)
 (* "/rm": the subject name is edited (attributes removed, one pushed again) afresh at every call;                       *)
 (* "/e0": an empty pre-specified key identifier;                                                                      *)
+(* "/hash/2": hash key identifiers on both sides, the issuer's own key as subject key, held in one object or in two;         *)
 (* "/ns": validity bounds with a sub-second part on either side of 2050;                                                  *)
 (* "/s20": serial number / CRL number / revoked serial of 20 octets with the first bit set, given by the caller;       *)
 (* "/r3": an RSA-3072 key loaded through the algorithm-detecting entry point of each back end                          *)
 Templates == {"cert-self/1", "cert-self/2", "cert-issued/1", "cert-issued/2", "csr/1", "csr/2", "crl/1", "crl/2",
               "cert-issued/n2", "cert-issued/k2", "cert-issued/ra", "cert-issued/rb", "crl/n2", "crl/k2", "cert-self/r3", "cert-self/e0", "crl/e0", "cert-issued/auto/2", "cert-self/rm", "csr/rm",
-              "cert-self/s20", "cert-issued/s20", "crl/s20", "cert-self/ns", "cert-issued/ns"}
-KidOf(t) == IF t \in {"cert-self/2", "cert-issued/2", "crl/2"} THEN "sha384" ELSE "sha256"
+              "cert-self/s20", "cert-issued/s20", "crl/s20", "cert-self/ns", "cert-issued/ns", "cert-issued/hash/2"}
+KidOf(t) == IF t \in {"cert-self/2", "cert-issued/2", "crl/2", "cert-issued/hash/2"} THEN "sha384" ELSE "sha256"
 (* "refused-late": generation calls that are refused after part of their input was already looked at (a CRL whose second entry has a *)
 (* date outside the encodable years, a certificate whose last distribution point is not IA5, a request with a field it cannot carry)  *)
 Interference == {"dn-edit", "key-load", "bad-parse", "csr-parse", "other-kid-same-key", "gen-other", "import-ca", "refused-late"}
